@@ -99,7 +99,11 @@ fn run(prop: &str, tier: &str, seed: u64) -> i32 {
             chk.rule.push_str(" || UCI level: `go infinite`/`go depth 6` followed at once by `stop` with the search-thread start delayed (so the stop precedes the first poll) and `go movetime 0..5`: the bestmove must be a legal move, never `none`.");
             with_part(chk, agg, "C07uci", tier, seed, &[("UCI-level go commands judged", "uci_gos_judged", 200)])
         }
-        "C08" => m_search::run_c08(tier, seed),
+        "C08" => {
+            let (mut chk, agg) = m_search::run_c08(tier, seed);
+            chk.rule.push_str(" || UCI level: `go depth N` combined with a time budget (movetime / clocks, either order) and after deeper searches of the same position, on the release and debug-assertions binaries; decided on the `info depth` lines of each go.");
+            with_part(chk, agg, "C08uci", tier, seed, &[("UCI-level depth-limited go commands judged", "uci_limited_gos_judged", 200), ("of which combined with a time budget", "uci_limited_gos_with_a_time_budget", 80)])
+        }
         "C09" => m_search::run_c09(tier, seed),
         "C10" => {
             let (mut chk, agg) = m_search::run_c10(tier, seed);
@@ -132,6 +136,7 @@ fn worker(mode: &str, shard: usize, nshards: usize, seed: u64, tier: &str, out: 
         "C09" => m_search::worker_c09(shard, nshards, seed, tier, out),
         "C10" => m_search::worker_c10(shard, nshards, seed, tier, out),
         "C06uci" | "C07uci" | "C10uci" | "C18uci" => m_uci::worker_ucisample(&mode[..3], shard, nshards, seed, tier, out),
+        "C08uci" => m_uci::worker_c08uci(shard, nshards, seed, tier, out),
         "C12cmd" => m_uci::worker_c12cmd(shard, nshards, seed, tier, out),
         "C20show" => m_uci::worker_c20show(shard, nshards, seed, tier, out),
         "C13" => m_uci::worker_c13(shard, nshards, seed, tier, out),
@@ -165,6 +170,7 @@ fn replay(prop: &str, case: &Value, out: &mut par::Out) {
         ("C17", _) => m_text::replay(case, out),
         ("C19", _) => m_uci::replay_c19(case, out),
         ("C06" | "C07" | "C10" | "C18", "session") => m_uci::replay_ucisample(prop, case, out),
+        ("C08", "session") => m_uci::replay_session(prop, case, out),
         (p, _) if WALK.contains(&p) || p == "C12" || p == "C20" => m_rules::replay(p, case, out),
         ("C03", _) => m_undo::replay(case, out),
         ("C06" | "C18", _) => m_search::replay_hist(prop, case, out),
@@ -206,7 +212,7 @@ fn run(prop: &str, tier: &str, seed: u64) -> i32 {
         "C20" => partial("C20show", "exploration"),
         "C17" => partial("C17cmd", "exploration"),
         "C15" => partial("C15bin", "exploration"),
-        "C06" | "C07" | "C10" | "C18" => partial(&format!("{prop}uci"), "exploration"),
+        "C06" | "C07" | "C08" | "C10" | "C18" => partial(&format!("{prop}uci"), "exploration"),
         _ => {
             println!("INCONCLUSIVE property={prop} reason={why}");
             2
@@ -218,6 +224,7 @@ fn run(prop: &str, tier: &str, seed: u64) -> i32 {
 fn worker(mode: &str, shard: usize, nshards: usize, seed: u64, tier: &str, out: &mut par::Out, _extra: &[String]) {
     match mode {
         "C06uci" | "C07uci" | "C10uci" | "C18uci" => m_uci::worker_ucisample(&mode[..3], shard, nshards, seed, tier, out),
+        "C08uci" => m_uci::worker_c08uci(shard, nshards, seed, tier, out),
         "C12cmd" => m_uci::worker_c12cmd(shard, nshards, seed, tier, out),
         "C20show" => m_uci::worker_c20show(shard, nshards, seed, tier, out),
         "C13" => m_uci::worker_c13(shard, nshards, seed, tier, out),
@@ -247,6 +254,7 @@ fn replay(prop: &str, case: &Value, out: &mut par::Out) {
         ("C13", _) => m_uci::replay_c13(case, out),
         ("C19", _) => m_uci::replay_c19(case, out),
         ("C06" | "C07" | "C10" | "C18", "session") => m_uci::replay_ucisample(prop, case, out),
+        ("C08", "session") => m_uci::replay_session(prop, case, out),
         _ => println!("this witness needs the in-process harness, which does not build against the current engine sources"),
     }
 }
@@ -291,9 +299,8 @@ fn main() {
                 let g = st.root.game().unwrap();
                 if i + 1 == steps.len() {
                     for d in 1..=st.limit.unwrap_or(1) {
-                        let mut ms = arrayvec::ArrayVec::<chess::move_struct::Move, 256>::new();
                         let mut g2 = g.clone();
-                        g2.get_moves(&mut ms, true);
+                        let ms = eng::moves(&mut g2, true);
                         for m in ms.iter() {
                             let mut t2 = table.clone();
                             let mut g3 = g.clone();
